@@ -376,6 +376,9 @@ inline void runC05(Ctx &c)
                 Grads stale = s->propagateIntoStale(u.gC, u.gT, r.coin() ? -1 : r.range(0, 12));
                 Grads fresh = makeSplineDur(p)->propagate(u.gC, u.gT, refOv);
                 c.require("C05.call_history_independent", gradsBitEqual(again, an) && gradsBitEqual(other, an) && gradsBitEqual(stale, an) && gradsBitEqual(fresh, an), gkey(p, "history"));
+                // the upstream duration gradient may live in the receiving object (in-place idiom)
+                Grads aliased = s->propagateAliasedTimes(u.gC, u.gT);
+                c.require("C05.in_place_upstream_times", gradsBitEqual(aliased, an), gkey(p, "history"));
                 // propagation must not disturb the spline itself
                 c.require("C05.propagation_leaves_spline_unchanged", bitEqualMat(s->coeffs(), makeSplineDur(p)->coeffs()) && bitEqual(s->energy(), makeSplineDur(p)->energy()), gkey(p, "history"));
             }
@@ -569,7 +572,9 @@ inline void runC13(Ctx &c)
             if (!c.mine(idx))
                 continue;
             Rng r = c.beginCase(cl.name, idx);
-            Problem p = genProblem(r, cl.order, cl.dim, cl.N);
+            GenOpts g13;
+            g13.huge_t0_prob = 0.06;
+            Problem p = genProblem(r, cl.order, cl.dim, cl.N, g13);
             const bool onehot = (idx % 4 == 3);
             int hot = r.range(0, cl.dim - 1);
             if (onehot)
